@@ -292,7 +292,7 @@ fn left_only_rows_differ(want: &[String], got: &[String], nullable: &[usize]) ->
 
 /// wait until stream replay, materialised table and re-evaluated query agree (ceiling, positive polling)
 #[allow(clippy::too_many_arguments)]
-async fn settle(cl: &Cluster, stream: &mut NdjsonStream, model: &mut SubModel, sql: &str, sub_db: &std::path::Path, ncols: usize, nullable: &[usize], what: &str) -> Result<(), Fail> {
+pub async fn settle(cl: &Cluster, stream: &mut NdjsonStream, model: &mut SubModel, sql: &str, sub_db: &std::path::Path, ncols: usize, nullable: &[usize], what: &str) -> Result<(), Fail> {
     let ceiling = Duration::from_secs(8);
     let t0 = tokio::time::Instant::now();
     loop {
